@@ -20,6 +20,9 @@ type RecSpec struct {
 	Size int          `json:"size,omitempty"` // for fill/json
 	Seed int          `json:"seed,omitempty"`
 	Lit  engine.Bytes `json:"lit,omitempty"`
+	// Inject: for json, the byte (value+1) put in the middle of the record - the
+	// split byte of the framing, which makes a record of any size unrepresentable.
+	Inject int `json:"inject,omitempty"`
 }
 
 // Case: records are sent pipelined by the library's own Send, the stream is
@@ -91,6 +94,9 @@ func (r RecSpec) bytes() []byte {
 			b[i] = "abcdefghij klmnop"[(i*7+r.Seed)%17]
 		}
 		b[0], b[n-1] = '"', '"'
+		if r.Inject > 0 {
+			b[n/2] = byte(r.Inject - 1)
+		}
 		return b
 	}
 	b := make([]byte, r.Size)
@@ -396,7 +402,11 @@ func genRecord(t *rapid.T, framing string, big bool) RecSpec {
 		if len(b) <= 64 {
 			return RecSpec{Kind: "lit", Lit: b}
 		}
-		return RecSpec{Kind: "json", Size: rs.Size, Seed: rs.Seed % 10} // printable pattern without control bytes
+		js := RecSpec{Kind: "json", Size: rs.Size, Seed: rs.Seed % 10} // printable pattern without control bytes
+		if rapid.IntRange(0, 5).Draw(t, "bigsplit") == 0 {
+			js.Inject = int(sep) + 1 // ... with the split byte in the middle: Send must refuse it whatever its size
+		}
+		return js
 	}
 	return rs
 }
